@@ -35,7 +35,8 @@ var tailWraps = []tailWrap{
 type tailFeat struct {
 	name    string
 	pre     func(traced bool, k *int) node
-	closure bool // acc collects closures
+	closure bool        // acc collects closures
+	next    func() node // the accumulator argument of the tail call (default: (+ acc 1))
 }
 
 func trOr(traced bool, k *int, e node) node {
@@ -47,13 +48,28 @@ func trOr(traced bool, k *int, e node) node {
 }
 
 var tailFeats = []tailFeat{
-	{"plain", func(t bool, k *int) node { return trOr(t, k, nSym("n")) }, false},
-	{"local", func(t bool, k *int) node { return nDef("loc", trOr(t, k, nApp("+", nSym("n"), nInt(1)))) }, false},
-	{"scope", func(t bool, k *int) node { return nScope(nDef("inner", nSym("n")), trOr(t, k, nSym("inner"))) }, false},
+	{"plain", func(t bool, k *int) node { return trOr(t, k, nSym("n")) }, false, nil},
+	{"local", func(t bool, k *int) node { return nDef("loc", trOr(t, k, nApp("+", nSym("n"), nInt(1)))) }, false, nil},
+	{"scope", func(t bool, k *int) node { return nScope(nDef("inner", nSym("n")), trOr(t, k, nSym("inner"))) }, false, nil},
 	{"nontail-self", func(t bool, k *int) node {
 		return trOr(t, k, nApp("+", nInt(1), nCall(nSym("f"), nInt(0), nSym("acc"))))
-	}, false},
-	{"closure", func(t bool, k *int) node { return nDef("c", nFn(nil, "", nSym("n"))) }, true},
+	}, false, nil},
+	{"closure", func(t bool, k *int) node { return nDef("c", nFn(nil, "", nSym("n"))) }, true, nil},
+	// a self call that is (part of) an ARGUMENT of the tail self call is not itself in tail position:
+	// (f 0 x) returns x, so the value is that of the plain shape
+	{"selfarg", func(t bool, k *int) node { return trOr(t, k, nSym("n")) }, false,
+		func() node { return nCall(nSym("f"), nInt(0), nApp("+", nSym("acc"), nInt(1))) }},
+	{"selfarg-let", func(t bool, k *int) node { return trOr(t, k, nSym("n")) }, false,
+		func() node {
+			return nLet("let", []bind{{"z", nInt(1)}}, nCall(nSym("f"), nInt(0), nApp("+", nSym("acc"), nSym("z"))))
+		}},
+	{"selfarg-cond", func(t bool, k *int) node { return trOr(t, k, nSym("n")) }, false,
+		func() node {
+			return nCond([]clause{{nApp("==", nSym("n"), nInt(1)), nCall(nSym("f"), nInt(0), nApp("+", nSym("acc"), nInt(1)))}},
+				nBegin(nInt(5), nCall(nSym("f"), nInt(0), nApp("+", nSym("acc"), nInt(1)))))
+		}},
+	{"selfarg-and", func(t bool, k *int) node { return trOr(t, k, nSym("n")) }, false,
+		func() node { return nAnd(nInt(1), nCall(nSym("f"), nInt(0), nApp("+", nSym("acc"), nInt(1)))) }},
 }
 
 type tailShape struct {
@@ -93,6 +109,8 @@ func (s tailShape) build(traced bool) node {
 	var next node
 	if feat.closure {
 		next = nApp("append", nSym("acc"), nFn(nil, "", nSym("n")))
+	} else if feat.next != nil {
+		next = feat.next()
 	} else {
 		next = nApp("+", nSym("acc"), nInt(1))
 	}
@@ -110,18 +128,45 @@ type spaceRun struct {
 }
 
 type spaceCase struct {
-	ID    string     `json:"id"`
-	Text  string     `json:"text"`
-	Shape string     `json:"shape"`
-	Runs  []spaceRun `json:"runs"`
+	ID      string     `json:"id"`
+	Text    string     `json:"text"`
+	Shape   string     `json:"shape"`
+	Runs    []spaceRun `json:"runs"`
+	Prelude int        `json:"prelude"`
 }
 
-func runSpace(id string, sh tailShape, ns []int) spaceCase {
+// What the interpreter has seen under the name f before the function under test is defined:
+// 0 nothing; 1 a one-parameter f earlier in the same text; 2 a three-parameter helper f local to another
+// function of the same text; 3 an f with a lazy parameter in an earlier evaluation (a reload);
+// 4 a variadic f earlier in the same text
+const nPreludes = 5
+
+func tailPrelude(kind int) (sameText []node, earlier string) {
+	switch kind {
+	case 1:
+		return []node{nDefn("f", strict("a"), "", nSym("a"))}, ""
+	case 2:
+		return []node{nDefn("other", nil, "", nDefn("f", strict("a", "b", "c"), "", nCond([]clause{{nApp("<=", nSym("a"), nInt(0)), nSym("b")}},
+			nCall(nSym("f"), nApp("-", nSym("a"), nInt(1)), nSym("b"), nSym("c")))), nCall(nSym("f"), nInt(1), nInt(2), nInt(3))),
+			nCall(nSym("other"))}, ""
+	case 3:
+		return nil, "(defn f [#a b] b)\n(f 1 2)\n"
+	case 4:
+		return []node{nDefn("f", strict("n"), "acc", nSym("n"))}, ""
+	}
+	return nil, ""
+}
+
+func runSpace(id string, sh tailShape, ns []int, prelude int) spaceCase {
 	def := sh.build(false)
-	text := renderProgram([]node{def}, nil)
-	c := spaceCase{ID: id, Text: text, Shape: sh.id}
+	pre, earlier := tailPrelude(prelude)
+	text := renderProgram(append(pre, def), nil)
+	c := spaceCase{ID: id, Text: earlier + text, Shape: sh.id, Prelude: prelude}
 	for _, n := range ns {
 		se := newSemEnv()
+		if earlier != "" {
+			evalSafe(se.env, earlier)
+		}
 		o := evalSafe(se.env, text)
 		if o.Kind != "val" {
 			c.Runs = append(c.Runs, spaceRun{N: n, Out: projOutcome(se.env, o)})
@@ -209,7 +254,7 @@ func init() {
 						for _, r := range in.Runs {
 							ns = append(ns, r.N)
 						}
-						w.write(runSpace(in.ID, sh, ns))
+						w.write(runSpace(in.ID, sh, ns, in.Prelude))
 					}
 				}
 			})
@@ -273,12 +318,18 @@ func init() {
 					prog := []node{def, call}
 					w.write(runSem(fmt.Sprintf("tail-%d-%d", si, n), "tail:"+sh.id, prog, renderProgram(prog, nil)))
 					idx++
+					if n == 2 && len(sh.wraps) == 1 && tailFeats[sh.feat].next == nil {
+						for _, pk := range []int{1, 2, 4} {
+							pre, _ := tailPrelude(pk)
+							prog := append(append([]node{}, pre...), def, call)
+							w.write(runSem(fmt.Sprintf("tail-%d-%d-p%d", si, n, pk), "tail:"+sh.id, prog, renderProgram(prog, nil)))
+						}
+					}
 				}
 				continue
 			}
-			if !c.mine(idx) {
-				idx++
-				continue
+			if !c.thorough() && tailFeats[sh.feat].next != nil && len(sh.wraps) > 1 {
+				continue // quick tier: the self-call-in-argument features under one wrap only (the value half has them all)
 			}
 			ns := []int{10, 100, 1000}
 			if c.thorough() {
@@ -292,8 +343,19 @@ func init() {
 			if tailFeats[sh.feat].closure {
 				ns = []int{10, 100, 1000} // acc grows with n by design
 			}
-			w.write(runSpace(fmt.Sprintf("space-%d", si), sh, ns))
+			if c.mine(idx) {
+				w.write(runSpace(fmt.Sprintf("space-%d", si), sh, ns, 0))
+			}
 			idx++
+			// the same function defined after the name f was used for something else
+			if tailFeats[sh.feat].next == nil && (c.thorough() || (len(sh.wraps) == 1 && sh.feat == 0)) {
+				for pk := 1; pk < nPreludes; pk++ {
+					if c.mine(idx) {
+						w.write(runSpace(fmt.Sprintf("space-%d-p%d", si, pk), sh, []int{10, 100, 1000}, pk))
+					}
+					idx++
+				}
+			}
 		}
 		return 0
 	})
